@@ -263,6 +263,9 @@ struct RuleSetList {
 }
 
 fn main() {
+    // cfg used by the verification hooks (off in normal builds)
+    println!("cargo::rustc-check-cfg=cfg(redirectionio_verif)");
+
     let crate_dir = env::var("CARGO_MANIFEST_DIR").unwrap();
     let package_name = env::var("CARGO_PKG_NAME").unwrap();
     let build_dir = Path::new(crate_dir.as_str());
